@@ -10,6 +10,15 @@ let z_of_int n = if n = 0 then Z0 else if n > 0 then Zpos (pos_of_int n) else Zn
 let rec int_of_pos = function XH -> 1 | XO p -> 2 * int_of_pos p | XI p -> 2 * int_of_pos p + 1
 let int_of_z = function Z0 -> 0 | Zpos p -> int_of_pos p | Zneg p -> - (int_of_pos p)
 
+(* byte strings <-> list ascii (hex on the wire, "-" = empty) *)
+let ascii_of_int n = Ascii (n land 1 <> 0, n land 2 <> 0, n land 4 <> 0, n land 8 <> 0, n land 16 <> 0, n land 32 <> 0, n land 64 <> 0, n land 128 <> 0)
+let int_of_ascii (Ascii (a, b, c, d, e, f, g, h)) =
+  let v x k = if x then k else 0 in v a 1 + v b 2 + v c 4 + v d 8 + v e 16 + v f 32 + v g 64 + v h 128
+let bytes_of_hex s =
+  if s = "-" then [] else
+  List.init (String.length s / 2) (fun i -> ascii_of_int (int_of_string ("0x" ^ String.sub s (2 * i) 2)))
+let hex_of_bytes l = if l = [] then "-" else String.concat "" (List.map (fun c -> Printf.sprintf "%02x" (int_of_ascii c)) l)
+
 let tokens : string Queue.t = Queue.create ()
 let rec fill () =
   if Queue.is_empty tokens then
@@ -186,6 +195,62 @@ let () =
         | Some "reduce" -> Some SReduce | Some "translate" -> Some STranslate | Some "create" -> Some SCreate | Some "write" -> Some SWrite
         | _ -> None) in
       Printf.printf "F %s %s\n" tag (match predict st with Some Old -> "old" | Some Empty -> "empty" | Some New -> "new" | None -> "absent");
+      loop ()
+    | Some "P" ->
+      (* P id  then the AST (see tools/front.py): runs Front.front and prints identifiers, rules, symbols *)
+      let id = (match next () with Some s -> s | None -> failwith "id") in
+      let nexts () = (match next () with Some s -> s | None -> failwith "eof") in
+      let hx () = bytes_of_hex (nexts ()) in
+      let code = hx () in let union = hx () in let start = hx () in let rest = hx () in
+      let ntl = next_int () in
+      let toks = read_n ntl (fun () -> let k = next_int () in read_n k (fun () ->
+        let nm = hx () in let ty = next_int () in let v = next_int () in let tag = hx () in let al = hx () in
+        { i_name = nm; i_typ = (if ty = 1 then TermId else NontermId); i_value = z_of_int v; i_tag = tag; i_alias = al })) in
+      let npl = next_int () in
+      let precs = read_n npl (fun () -> let k = next_int () in read_n k (fun () ->
+        let a = next_int () in let nm = hx () in { pd_assoc = (match a with 1 -> ALeft | 2 -> ARight | _ -> ANon); pd_name = nm })) in
+      let nty = next_int () in
+      let types = read_n nty (fun () -> let tag = hx () in let nm = hx () in (tag, nm)) in
+      let nr = next_int () in
+      let rules = read_n nr (fun () ->
+        let line = next_int () in let l = hx () in let pr = hx () in let k = next_int () in
+        let rhs = read_n k (fun () -> let t = next_int () in let e = hx () in if t = 1 then RSym e else RAct e) in
+        { r_line = nat_of_int line; r_lhs = l; r_rhs = rhs; r_prec = pr }) in
+      let a = { a_decl = { d_code = code; d_tokens = toks; d_precs = precs; d_types = types; d_union = union; d_start = start };
+                a_rules = rules; a_rest = rest } in
+      let show_visited v =
+        List.iter (fun i -> Printf.printf "%s ident %s %d %d %s\n" id (hex_of_bytes i.i_name) (match i.i_typ with TermId -> 1 | NontermId -> 2)
+                              (int_of_z i.i_value) (hex_of_bytes i.i_tag)) v.vs_tab;
+        List.iteri (fun k r -> Printf.printf "%s vrule %d %s %s %s %s\n" id k (hex_of_bytes r.v_lhs)
+                              (match r.v_prec with Some n -> hex_of_bytes n | None -> "-") (hex_of_bytes r.v_action)
+                              (String.concat " " (List.map hex_of_bytes r.v_rhs))) v.vs_rules in
+      (match front a with
+       | Inl e ->
+         (match visit a with Inr v -> show_visited v | Inl _ -> ());
+         (match e with
+          | FPrecUnknown n -> Printf.printf "%s ferror precunknown %s\n" id (hex_of_bytes n)
+          | FUndefined n -> Printf.printf "%s ferror undefined %s\n" id (hex_of_bytes n)
+          | FNoRule n -> Printf.printf "%s ferror norule %s\n" id (hex_of_bytes n)
+          | FNoStart -> Printf.printf "%s ferror nostart\n" id
+          | FUnproductive l -> Printf.printf "%s ferror unproductive %s\n" id (ints (List.map int_of_nat l))
+          | FTooMany -> Printf.printf "%s ferror toomany\n" id)
+       | Inr b ->
+         show_visited b.b_visited;
+         List.iteri (fun k s -> Printf.printf "%s sym %d %s %d %d %d %d %s\n" id k (hex_of_bytes s.s_name) (int_of_z s.s_value)
+                               (if s.s_declnt then 1 else 0) (int_of_z s.s_prec) (match s.s_assoc with LEFT -> 0 | RIGHT -> 1 | NONE -> 2) (hex_of_bytes s.s_tag)) b.b_syms;
+         List.iteri (fun k (r, pr) -> Printf.printf "%s grule %d %d %d %s\n" id k (int_of_nat r.lhs)
+                               (match pr with Some p -> int_of_nat p | None -> -1) (ints (List.map int_of_nat r.rhs)))
+           (List.combine b.b_gi.gi_rules b.b_rule_prec);
+         Printf.printf "%s nterm %d\n" id (int_of_nat b.b_gi.gi_nterm);
+         Printf.printf "%s fok\n" id);
+      loop ()
+    | Some "C" ->
+      (* C tag n (name value)*n m (name value)*m : Front.valid_codes declared final *)
+      let tag = (match next () with Some s -> s | None -> failwith "tag") in
+      let rd () = let n = next_int () in read_n n (fun () ->
+        let nm = (match next () with Some s -> bytes_of_hex s | None -> failwith "eof") in let v = next_int () in (nm, z_of_int v)) in
+      let decls = rd () in let final = rd () in
+      Printf.printf "C %s %s\n" tag (if valid_codes decls final then "ok" else "bad");
       loop ()
     | Some "M" ->
       (* M tag rows cols cells... : pack a matrix, print unpack(pack) and the lookups *)
